@@ -1,7 +1,7 @@
 //! C15 — streaming output is always a prefix of the final output and keeps up with input (E2, allow_incomplete).
 use super::corpus::{self, ALL_OPTS};
 use super::stream_graph::{self, Mode};
-use crate::cases::Opts;
+use crate::cases::{run_case, Case, Hex, Opts, SOp, Sk};
 use crate::common::{Ctx, Tier};
 use crate::explore::par_for;
 use crate::refmodel::dec;
@@ -107,6 +107,45 @@ pub fn run(tier: Tier) -> i32 {
             a.3 = a.3.max(g.max_lag_seen);
         });
         ctx.scope_done(&format!("adversarial-long-symbol-tails/{}-graphs", jobs.len()), jobs.len() as u64, t1, "every chunking of the tail after a fixed prefix");
+    }
+    // sinks that accept only part of each write: the window is handed to the sink mid-stream whenever it wraps
+    {
+        let t2 = Instant::now();
+        let mut jobs: Vec<(usize, usize, usize, usize)> = Vec::new();
+        for (ii, inp) in ins.iter().enumerate() {
+            if let Mode::Prefix { full, .. } = &inp.mode {
+                if full.len() > 4096 && inp.bytes.len() < 6000 {
+                    let n = inp.bytes.len();
+                    for chunk in [1usize, 64, 1000] {
+                        for piece in [1usize, 64, n] {
+                            for trunc in [n, n - n / 4, n / 2] {
+                                jobs.push((ii, chunk, piece, trunc));
+                            }
+                        }
+                    }
+                }
+            }
+        }
+        par_for(jobs.len() as u64, |i| {
+            let (ii, chunk, piece, trunc) = jobs[i as usize];
+            let inp = &ins[ii];
+            let (full, table, header_len) = match &inp.mode {
+                Mode::Prefix { full, table, header_len } => (full, table, *header_len),
+                _ => unreachable!(),
+            };
+            let mut ops: Vec<SOp> = inp.bytes[..trunc].chunks(piece).map(|c| SOp::WriteAll(Hex(c.to_vec()))).collect();
+            ops.push(SOp::Finish);
+            let case = Case::Stream { opts: inp.opts, sk: Sk { chunk, ..Sk::default() }, ops };
+            let o = run_case(&case);
+            ctx.eval(1);
+            ctx.nontriv(1);
+            let determined = if trunc >= header_len + 5 { table.iter().filter(|t| t.0 + 64 <= trunc).map(|t| t.1).max().unwrap_or(0) } else { 0 };
+            let ok = o.ops.iter().all(|r| r.v.is_ok()) && full.starts_with(&o.out.0) && o.out.0.len() >= determined && (trunc < inp.bytes.len() || o.out.0 == *full);
+            if !ok {
+                ctx.violation(&case, &format!("{}: first {} of {} input bytes in {}-byte writes into a sink accepting {} byte(s) per call, then finish (incomplete input allowed): every call Ok, the sink holds a prefix of the complete output ({} bytes) of at least {} bytes", inp.label, trunc, inp.bytes.len(), piece, chunk, full.len(), determined), &o, None);
+            }
+        });
+        ctx.scope_done("short-writing-sinks", jobs.len() as u64, t2, "outputs larger than the 4096-byte window into sinks accepting 1 / 64 / 1000 bytes per call");
     }
     let a = agg.lock().unwrap();
     ctx.set_extra("finish_probes", json!(a.2));
